@@ -474,7 +474,13 @@ func (a *act) applyContract(sp *FuncSpec, fn *ssa.Function, m *types.Func, args 
 	env.pkg = sp.Pkg
 	env.nowOld = fx.now(pre)
 	short := sp.Key
-	for i, r := range sp.Requires {
+	reqs := sp.Requires
+	enss := sp.Ensures
+	if fx.lockMode {
+		reqs = append(append([]*Clause{}, reqs...), sp.LockRequires...)
+		enss = append(append([]*Clause{}, enss...), sp.LockEnsures...)
+	}
+	for i, r := range reqs {
 		t := fx.specTerm(r.X, env, pre, pre, sp.Pkg)
 		name := r.Name
 		if name == "" {
@@ -529,7 +535,7 @@ func (a *act) applyContract(sp *FuncSpec, fn *ssa.Function, m *types.Func, args 
 	env = a.callEnv(fn, csig, args, out)
 	env.pkg = sp.Pkg
 	env.nowOld = nowBefore
-	for _, en := range sp.Ensures {
+	for _, en := range enss {
 		t := fx.specTerm(en.X, env, st, pre, sp.Pkg)
 		fx.ctx.Assert(Imp(guard, t))
 	}
